@@ -677,6 +677,20 @@ pub fn yen_corpus() -> Vec<KCase> {
         2,
         "yen-more-than-k",
     ));
+    // … both alternatives cost the same: `candidate_cost < best_cost` keeps the first
+    v.push(ycase(
+        base_case(vec![(0, 1, 1.0), (1, 2, 1.0), (2, 3, 1.0), (3, 4, 1.0), (1, 5, 2.0), (5, 4, 2.0), (2, 6, 1.5), (6, 4, 1.5)], 7, 0, 4),
+        2,
+        "yen-equal-cost-candidates",
+    ));
+    // … the second candidate is similar to the first accepted route but not to the second: the scan goes on
+    let mut c = ycase(
+        base_case(vec![(0, 1, 1.0), (1, 2, 1.0), (2, 3, 1.0), (3, 4, 1.0), (1, 5, 3.0), (5, 4, 3.0), (2, 6, 1.5), (6, 4, 1.5)], 7, 0, 4),
+        2,
+        "yen-scan-continues-after-similar",
+    );
+    c.sim = Some(Sim::EdgeId(0.4));
+    v.push(c);
     // the spur path returns through the origin: 0 -> 1 -> 2 -> 3, alternative from 1: 1 -> 0 -> 4 -> 3
     v.push(ycase(
         base_case(vec![(0, 1, 1.0), (1, 2, 1.0), (2, 3, 1.0), (1, 0, 1.0), (0, 4, 2.0), (4, 3, 2.0)], 5, 0, 3),
